@@ -744,14 +744,46 @@ def verdict_mphys(desc):
     for k, nmk in enumerate(names_m):
         out.close("mphys/mux_rev_product", din[nmk], v[offs[k]:offs[k + 1]].reshape(meshes[k].shape), rtol=0.0, atol=0.0)
 
-    # ---- the same through OpenMDAO's total-derivative machinery (fwd and rev problems give the permutation matrix)
+    # ---- OpenMDAO's contract for matrix-free products: the product is ACCUMULATED into the vector handed in (a linear
+    # solver that applies the whole operator has already put the -I.d_outputs term of the residual there)
+    base_f = rng.uniform(-1.0, 1.0, ntot)
+    base_s = [rng.uniform(-1.0, 1.0, m.shape) for m in meshes]
+    dout = _Vec({nmk: b.copy() for nmk, b in zip(names_d, base_s)})
+    demux.compute_jacvec_product(None, _Vec({X: v.copy()}), dout, "fwd")
+    for k, nmk in enumerate(names_d):
+        out.close("mphys/demux_fwd_accumulates", dout[nmk], base_s[k] + v[offs[k]:offs[k + 1]].reshape(meshes[k].shape),
+                  rtol=0.0, atol=1e-15)
+    din = _Vec({X: base_f.copy()})
+    demux.compute_jacvec_product(None, din, _Vec({nmk: w.copy() for nmk, w in zip(names_d, ws)}), "rev")
+    out.close("mphys/demux_rev_accumulates", din[X], base_f + np.concatenate([w.ravel() for w in ws]), rtol=0.0, atol=1e-15)
+    dout = _Vec({Fname: base_f.copy()})
+    mux.compute_jacvec_product(None, _Vec({nmk: w.copy() for nmk, w in zip(names_m, ws)}), dout, "fwd")
+    out.close("mphys/mux_fwd_accumulates", dout[Fname], base_f + np.concatenate([w.ravel() for w in ws]), rtol=0.0, atol=1e-15)
+    din = _Vec({nmk: b.copy() for nmk, b in zip(names_m, base_s)})
+    mux.compute_jacvec_product(None, din, _Vec({Fname: v.copy()}), "rev")
+    for k, nmk in enumerate(names_m):
+        out.close("mphys/mux_rev_accumulates", din[nmk], base_s[k] + v[offs[k]:offs[k + 1]].reshape(meshes[k].shape),
+                  rtol=0.0, atol=1e-15)
+
+    # ---- the same through OpenMDAO's total-derivative machinery (fwd and rev problems give the permutation matrix),
+    # under the linear solvers an enclosing coupling group may use
     if desc.get("totals"):
+        lin = ["runonce", "krylov", "direct"][int(desc["seed"]) % 3]
+        out.label("totals_lin=" + lin)
+
+        def _lin(model):
+            if lin == "krylov":
+                model.linear_solver = om.ScipyKrylov(atol=1e-14, rtol=1e-14, maxiter=200, iprint=-1, err_on_non_converge=True)
+            elif lin == "direct":
+                model.linear_solver = om.DirectSolver(assemble_jac=False)
+
         for mode in ("fwd", "rev"):
             pt = om.Problem(reports=False)
             iv = om.IndepVarComp()
             iv.add_output(X, val=v, units="m")
             pt.model.add_subsystem("iv", iv, promotes=["*"])
             pt.model.add_subsystem("d", DemuxSurfaceMesh(surfaces=surfs), promotes=["*"])
+            _lin(pt.model)
             pt.setup(mode=mode)
             pt.run_model()
             J = pt.compute_totals(of=names_d, wrt=[X])
@@ -765,6 +797,7 @@ def verdict_mphys(desc):
                 iv.add_output(nmk, val=w, units="N")
             pt.model.add_subsystem("iv", iv, promotes=["*"])
             pt.model.add_subsystem("m", MuxSurfaceForces(surfaces=surfs), promotes=["*"])
+            _lin(pt.model)
             pt.setup(mode=mode)
             pt.run_model()
             J = pt.compute_totals(of=[Fname], wrt=names_m)
